@@ -328,6 +328,7 @@ structure Ext (K : Type) where
   split : (input : Bool) → Split → (seed : Option (List Nat)) → List (List Bool) → List Bool
   eps : K
   kOf : Nat → Nat            -- `int((1 - percentile) * n) + 1`
+  padCoilsTo : Nat
   espirit : Val K → Val K
 
 variable {K : Type}
@@ -425,7 +426,10 @@ def evalOp (S : Ops K) (X : Ext K) (m : Meta) : Op → List (Val K) → Val K
   | .sumCoils, [x] => { ns := x.ns, cplx := x.cplx, data := sumBlocks S x.nc x.data }
   | .modulus, [x] => { nc := x.nc, ns := x.ns, data := modulusL S x.data }
   | .senseCombine, [s, x] => { ns := x.ns, cplx := true, data := sumBlocks S x.nc (conjMul S s.data x.data) }
-  | .padCoils, [x] => X.lin .pad m x   -- placeholder never used: see `evalOpPad`
+  | .padCoils, [x] =>   -- (more coils than requested is a ValueError in the code: precondition)
+      if x.nc ≥ X.padCoilsTo then x else
+        { x with nc := X.padCoilsTo,
+                 data := List.replicate ((X.padCoilsTo - x.nc) * (x.data.length / x.nc)) S.zero ++ x.data }
   | .split input ty seed, ms =>
       { data := (X.split input ty (seed.map (seedVal m)) (ms.map fun v => v.data.map fun a => !(S.isZero a))).map (b2k S) }
   | .espirit, [x] => X.espirit x
@@ -591,10 +595,10 @@ def Config.valid (c : Config) : Bool :=
   c.maskFunc
   && (c.scalingKey == .key .maskedKspace || c.scalingKey == .key .kspace
       || (c.scalingKey == .key .bodyCoilImage && c.bodyCoil))
-  && ((c.recon == .sense || c.recon == .senseMod) → c.estimateSmaps)
-  && (c.estimateSmaps → c.smapType != .espirit)
-  && (c.crop == .tuple → !c.rescale && !c.pad)
-  && (c.splitKeepAcs → c.ssl && c.estimateSmaps)
+  && (!(c.recon == .sense || c.recon == .senseMod) || c.estimateSmaps)
+  && (!c.estimateSmaps || c.smapType != .espirit)
+  && (!(c.crop == .tuple) || (!c.rescale && !c.pad))
+  && (!c.splitKeepAcs || (c.ssl && c.estimateSmaps))
 
 /-! ## structural facts read off the SSA definitions -/
 
@@ -651,6 +655,35 @@ def consistentOk (l : List Stage) : Bool :=
                        | some src => isNormalisedOf e src s k
                        | none => false)
           | none => false)
+
+/-- is version `v` defined as `applyMask(m, k)`? -/
+def isMaskedOf (e : TEnv) (v m k : Nat) : Bool :=
+  match e.defOf v with
+  | some ⟨_, .applyMask, [m', k']⟩ => m' == m && k' == k
+  | _ => false
+
+def verOf (e : TEnv) (k : Key) : Option Nat := (e.get k).map (·.ver)
+
+/-- **self-consistency, SSL variant**: `input_kspace` / `kspace` are the input / target split masks
+applied to one tensor `mk`, which is `safeDiv(s, applyMask(m, k))` (the normalised masked k-space), and
+the target is reconstructed from the output `kspace` -/
+def consistentSslOk (l : List Stage) : Bool :=
+  match typeProgram (program l) initEnv with
+  | .error _ => false
+  | .ok e =>
+    match verOf e .inputKspace, verOf e .kspace, verOf e .inputSamplingMask, verOf e .targetSamplingMask,
+          verOf e .target, verOf e .scalingFactor with
+    | some ik, some tk, some im, some tm, some tg, some s =>
+      (match e.defOf ik with
+       | some ⟨_, .applyMask, [im', mk]⟩ =>
+           im' == im && isMaskedOf e tk tm mk
+           && (match e.defOf mk with
+               | some ⟨_, .safeDiv, [s', a]⟩ => s' == s && (match e.defOf a with
+                   | some ⟨_, .applyMask, [_, _]⟩ => true | _ => false)
+               | _ => false)
+       | _ => false)
+      && (match reconSource e 4 tg with | some src => src == tk | none => false)
+    | _, _, _, _, _, _ => false
 
 /-- spatial tags: every tensor output carries the crop shape -/
 def cropShapeOk (l : List Stage) : Bool :=
